@@ -264,6 +264,29 @@ func bjjFaults() []bjjFault {
 			p.IssuerData.AuthCoreClaim, _ = ac.Hex()
 			p.Signature = o.SignBJJ(s.claim).Signature
 		}},
+		{name: "other-key-with-genuine-nonexistence-proof", apply: func(s *verifySetup, p *verifiable.BJJSignatureProof2021, x *bjjCtx, r *Rng) {
+			// an attacker's key: own auth claim, own signature, and the proof the issuer's claims tree really yields for that
+			// auth claim - a valid proof that it is NOT in the tree (its root is the true claims root)
+			if s.later || r.Bool() {
+				s.makeLater(r)
+				for i := 0; i < r.Intn(8); i++ {
+					_ = s.is.claims.Add(context.Background(), r.BigBelow(poseidonQ()), big.NewInt(1))
+				}
+				*p = *s.is.SignBJJ(s.claim)
+				x.res.mode = "published"
+			}
+			o := NewIssuer(r, 0)
+			ac, _ := core.NewClaim(core.AuthSchemaHash, core.WithIndexDataInts(o.sk.Public().X, o.sk.Public().Y), core.WithRevocationNonce(s.is.authNonce))
+			o.authClaim = ac
+			p.IssuerData.AuthCoreClaim, _ = ac.Hex()
+			p.Signature = o.SignBJJ(s.claim).Signature
+			hi, _, _ := ac.HiHv()
+			mp, _, err := s.is.claims.GenerateProof(context.Background(), hi, nil)
+			if err != nil {
+				panic(err)
+			}
+			p.IssuerData.MTP = mp
+		}},
 		{name: "auth-mtp-other-claim", apply: func(s *verifySetup, p *verifiable.BJJSignatureProof2021, x *bjjCtx, r *Rng) {
 			k := r.BigBelow(poseidonQ())
 			_ = s.is.claims.Add(context.Background(), k, big.NewInt(5))
